@@ -20,6 +20,7 @@ THEOREMS = [
     "Pedal.SandboxIO.c15_exec_inputs_fifo",
     "Pedal.SandboxIO.c15_input_fifo_once_default",
     "Pedal.SandboxIO.c15_input_record",
+    "Pedal.SandboxIO.c15_run_with_before",
     "Pedal.SandboxIO.c15_callable_reads",
     "Pedal.SandboxIO.runEvents_buf",
     "Pedal.SandboxIO.runEvents_popped",
